@@ -457,9 +457,25 @@ func runC03(c *Ctx) {
 				continue
 			}
 			eintrSeen++
-			e := r.Results[1]
-			good := isNil(e) || isLoadOfGlobal(e, errTimeout)
-			c.check(good && isConstInt(r.Results[0], 0), fn, "EINTR return", r.Pos(), "interrupted wait reported as nil/ErrTimeout with count 0",
+			// the pair returned here, or - when it is produced by an unexported helper - every pair the helper returns
+			pairs := [][2]ssa.Value{{r.Results[0], r.Results[1]}}
+			if ex, ok := stripConv(r.Results[0]).(*ssa.Extract); ok {
+				if hc, ok := ex.Tuple.(*ssa.Call); ok && isHelperOf(fn, hc.Call.StaticCallee()) {
+					pairs = nil
+					for _, hr := range returnsOf(hc.Call.StaticCallee()) {
+						if len(hr.Results) == 2 {
+							pairs = append(pairs, [2]ssa.Value{hr.Results[0], hr.Results[1]})
+						}
+					}
+				}
+			}
+			good := len(pairs) > 0
+			for _, pr := range pairs {
+				if !(isNil(pr[1]) || isLoadOfGlobal(pr[1], errTimeout)) || !isConstInt(pr[0], 0) {
+					good = false
+				}
+			}
+			c.check(good, fn, "EINTR return", r.Pos(), "interrupted wait reported as nil/ErrTimeout with count 0",
 				"a wait interrupted by a signal is reported as an error or with a non-zero count")
 		}
 		if eintrSeen == 0 {
